@@ -317,14 +317,34 @@ def finish (r : Res Tag) : Outcome :=
   | .err => .reject
   | .panic => .panic
 
-/-- `ldap3::parse_filter` (`filter::parse`) -/
-def parseO (i : Bytes) : Outcome := finish (filtexpr i)
+/-- the grammar run to the end of the input: `filtexpr(input)` and the test `r.is_empty()` of `filter::parse` -/
+def parseCoreO (i : Bytes) : Outcome := finish (filtexpr i)
 /-- `filter::parse_matched_values` -/
 def parseMvO (i : Bytes) : Outcome := finish (mvFiltexpr i)
 
 def Outcome.toOption : Outcome → Option Tag
   | .ok t => some t
   | _ => none
+
+def parseCore (i : Bytes) : Option Tag := (parseCoreO i).toOption
+
+/-- `MAX_NESTING` -/
+def maxNesting : Nat := 128
+
+/-- the loop of `nesting_within_limit`, from depth `d`: every `(` opens a level (refused beyond
+`MAX_NESTING`), every `)` closes one (`saturating_sub`) -/
+def nestingGo : Nat → Bytes → Bool
+  | _, [] => true
+  | d, c :: r =>
+    if c = 0x28 then (if d + 1 > maxNesting then false else nestingGo (d + 1) r)
+    else if c = 0x29 then nestingGo (d - 1) r
+    else nestingGo d r
+
+/-- `nesting_within_limit` -/
+def nestingWithinLimit (i : Bytes) : Bool := nestingGo 0 i
+
+/-- `ldap3::parse_filter` (`filter::parse`): the nesting guard, then the grammar -/
+def parseO (i : Bytes) : Outcome := if nestingWithinLimit i then parseCoreO i else .reject
 
 def parse (i : Bytes) : Option Tag := (parseO i).toOption
 def parseMatchedValues (i : Bytes) : Option Tag := (parseMvO i).toOption
